@@ -266,6 +266,15 @@ func (r *renderer) block(body []Stmt, depth int) {
 				continue
 			}
 		}
+		// a separator may also follow a statement (it separates it from nothing)
+		if r.l.Semis && simple(st) && r.l.Rng != nil && r.l.Rng.Intn(6) == 0 {
+			if a := r.simpleStmt(st); a != "" && !strings.ContainsAny(a, "\r\n") {
+				if _, tagged := st.(Tagged); !tagged {
+					r.emit(depth, a+r.l.p("；", ";"))
+					continue
+				}
+			}
+		}
 		r.stmt(st, depth)
 	}
 }
